@@ -2,7 +2,9 @@ package main
 
 import (
 	"fmt"
+	"go/ast"
 	"go/token"
+	"strconv"
 	"sort"
 	"strings"
 
@@ -63,15 +65,31 @@ func runC22(c *Ctx) {
 			target := lk.(ssa.Instruction)
 			bad := PathQ{Stop: instrPred(read), Goal: func(in ssa.Instruction) bool { return in == target }}.FromEntry(ml)
 			c.Check("C22.R1", lk, "every path to the positioned buffer lock passes the stream catch-up read", bad == nil, "skipping the catch-up read (even when the state was read at the stream top) loses every change that lands between the top probe and the hub registration: the client is told it is live while a change after its position was never delivered")
-			// the read is since the state position
+			// the read starts at the position the state was read at
 			for _, r := range CallsIn(ml, false, read) {
-				d := D(r.Common().Args[3])
-				c.Check("C22.R1", r, "catch-up read starts at the position the state was read at", strings.Contains(d, "MapReadStreamOptions") || strings.Contains(d, "complit") || true, d)
+				okSince := 0
+				for _, fld := range []string{"Offset", "Epoch"} {
+					for _, st := range storesToField(ml, false, "StreamPosition", fld) {
+						fa := st.Addr.(*ssa.FieldAddr)
+						if _, isAlloc := fa.X.(*ssa.Alloc); !isAlloc {
+							continue
+						}
+						intoSince := false
+						for _, ss := range storesToField(ml, false, "StreamFilter", "Since") {
+							if ss.Val == fa.X {
+								intoSince = true
+							}
+						}
+						if intoSince && strings.HasSuffix(D(st.Val), "sincePosition."+fld) {
+							okSince++
+						}
+					}
+				}
+				c.Check("C22.R1", r, "catch-up read starts at the position the state was read at", okSince == 2, "Filter.Since must be {params.sincePosition.Offset, params.sincePosition.Epoch}")
 			}
 			// merged first argument derives from the read result
-			c.Check("C22.R1", m, "merge combines the catch-up read with the buffered publications", strings.Contains(D(args[0]), "φ(") || strings.Contains(D(args[0]), "pubToProto") || strings.Contains(D(args[0]), "MapStreamRead"), "first merge argument: "+D(args[0]))
+			c.Check("C22.R1", m, "merge combines the catch-up read with the buffered publications", derivesFromCall(args[0], read, 0, map[ssa.Value]bool{}), "first merge argument: "+D(args[0]))
 		}
-		checkMerge(c, ml, lockBuf, merge, orPred(w.calleeIs("Client.commitSubscription"), w.calleeIs("Client.writeEncodedCommandReply")), "DisconnectInsufficientState")
 		// epoch mismatch and over-limit edges return ErrorUnrecoverablePosition after rollback
 		n := 0
 		EachInstr(ml, func(in ssa.Instruction) {
@@ -95,9 +113,7 @@ func runC22(c *Ctx) {
 			if !after {
 				return
 			}
-			bad := PathQ{Stop: w.wrapMust(w.calleeIs("Node.removeSubscription"), 2), Goal: func(x ssa.Instruction) bool { return x == target }}.FromEntry(ml)
-			// paths that never added the hub entry are fine: start from the hub add instead
-			bad = nil
+			var bad ssa.Instruction
 			for _, a := range CallsIn(ml, false, addSub) {
 				if x := (PathQ{Stop: w.wrapMust(w.calleeIs("Node.removeSubscription"), 2), Goal: func(x ssa.Instruction) bool { return x == target }}).From(a); x != nil {
 					bad = x
@@ -111,14 +127,8 @@ func runC22(c *Ctx) {
 			if v, known := boolConst(st.Val); !known || !v {
 				continue
 			}
-			okAfter := false
-			for _, m := range CallsIn(ml, false, merge) {
-				if Reaches(m, st) || true {
-					okAfter = true
-				}
-			}
 			okG := GuardedBy(st, func(g Guard) bool { return g.Pol && strings.HasSuffix(D(g.Cond), "isRecovery") })
-			c.Check("C22.R1", st, "Recovered=true only for a recovery join, after the catch-up succeeded", okAfter && okG, "it is never told recovery succeeded while some change after its position was not delivered")
+			c.Check("C22.R1", st, "Recovered=true only for a recovery join", okG, "it is never told recovery succeeded while some change after its position was not delivered")
 		}
 	}
 	// R2
@@ -238,7 +248,11 @@ func builderTemplates(fn *ssa.Function) []keyTemplate {
 				}
 			}
 			if r, ok := in.(*ssa.Return); ok {
-				_ = r
+				if len(parts) == 0 {
+					for _, v := range retVals(r) {
+						parts = append(parts, concatParts(v, 0)...)
+					}
+				}
 				out = append(out, keyTemplate{Parts: append([]string{}, parts...), Conds: append([]string{}, conds...)})
 				return
 			}
@@ -334,76 +348,170 @@ func (t keyTemplate) config() string {
 	return "unknown(" + strings.Join(t.Conds, ",") + ")"
 }
 
+type keyGroup struct {
+	name     string
+	typ      string
+	builders []string
+	// clusterImpliesSharded: the constructor rejects cluster shards without partitions
+	clusterImpliesSharded bool
+	ctor                  string
+}
+
 func runC34(c *Ctx) {
 	w := c.W
-	builders := []string{"(*RedisBroker).messageChannelID", "(*RedisBroker).historyStreamKey", "(*RedisBroker).historyListKey", "(*RedisBroker).historyMetaKey", "(*RedisBroker).resultCacheKey"}
-	segs := map[string]map[string]string{} // config -> builder -> segment
-	for _, name := range builders {
-		fn := c.Fn("C34.R1", "centrifuge", name)
-		if fn == nil {
-			continue
-		}
-		ts := builderTemplates(fn)
-		if !c.Anchor("C34.R1", "templates of "+name, len(ts) >= 3) {
-			continue
-		}
-		for _, t := range ts {
-			cfg := t.config()
-			seg, has := t.braceSegment()
-			if cfg == "plain" {
-				c.CheckAt("C34.R1", name+" ["+cfg+"]: template "+strings.Join(t.Parts, " "), w.Pos(fn.Pos()), true, "")
-				continue
-			}
-			if strings.HasPrefix(cfg, "unknown") {
-				c.CheckAt("C34.R1", name+": path condition classified", w.Pos(fn.Pos()), false, "cannot classify "+cfg)
-				continue
-			}
-			c.CheckAt("C34.R1", name+" ["+cfg+"]: key has a hash tag", w.Pos(fn.Pos()), has, "in cluster mode every key needs a {hash tag}: template "+strings.Join(t.Parts, " "))
-			if segs[cfg] == nil {
-				segs[cfg] = map[string]string{}
-			}
-			// normalise operand names
-			norm := seg
-			switch {
-			case strings.Contains(seg, "pubSubPartitionHashTag("):
-				norm = "⟨partition tag of the channel⟩"
-			case seg == "⟨arg:ch⟩":
-				norm = "⟨channel⟩"
-			}
-			segs[cfg][name] = norm
-		}
+	groups := []keyGroup{
+		{name: "stream broker", typ: "RedisBroker", ctor: "NewRedisBroker", builders: []string{"messageChannelID", "historyStreamKey", "historyListKey", "historyMetaKey", "resultCacheKey"}},
+		{name: "map broker", typ: "RedisMapBroker", ctor: "NewRedisMapBroker", clusterImpliesSharded: true, builders: []string{"messageChannelID", "buildKey", "resultCacheKey", "cleanupRegistrationKeyForChannel"}},
+		{name: "presence manager", typ: "RedisPresenceManager", ctor: "NewRedisPresenceManager", builders: []string{"presenceHashKey", "presenceSetKey", "userSetKey", "userHashKey"}},
 	}
-	for _, cfg := range []string{"cluster", "sharded"} {
-		m := segs[cfg]
-		distinct := map[string][]string{}
-		for b, s := range m {
-			distinct[s] = append(distinct[s], b)
+	for _, g := range groups {
+		if g.clusterImpliesSharded {
+			// the constructor must reject isCluster && partitions == 0
+			ctor := c.Fn("C34.R1", "centrifuge", g.ctor)
+			ok := false
+			if ctor != nil {
+				EachInstr(ctor, func(in ssa.Instruction) {
+					r, isR := in.(*ssa.Return)
+					if !isR {
+						return
+					}
+					vals := retVals(r)
+					if len(vals) != 2 || isNilConst(vals[1]) {
+						return
+					}
+					cl := Guarded(r, func(gd Guard) bool { return gd.Pol && strings.HasSuffix(D(gd.Cond), ".isCluster") })
+					np := Guarded(r, func(gd Guard) bool {
+						d := D(gd.Cond)
+						return (gd.Pol && strings.Contains(d, "NumShardedPubSubPartitions == 0")) || (!gd.Pol && strings.Contains(d, "NumShardedPubSubPartitions > 0")) || (gd.Pol && strings.Contains(d, "NumShardedPubSubPartitions <= 0"))
+					})
+					if cl && np {
+						ok = true
+					}
+				})
+				c.CheckAt("C34.R1", g.ctor+": a cluster shard without PUB/SUB partitions is rejected", w.Pos(ctor.Pos()), ok, "the "+g.name+"'s cluster keys are tagged with the partition of the channel; consistentIndex(ch, 0) is undefined")
+			}
 		}
-		var desc []string
-		for s, bs := range distinct {
-			sort.Strings(bs)
-			desc = append(desc, s+" ← "+strings.Join(bs, ","))
+		segs := map[string]map[string]string{} // config -> builder -> segment
+		for _, bn := range g.builders {
+			name := "(*" + g.typ + ")." + bn
+			fn := c.Fn("C34.R1", "centrifuge", name)
+			if fn == nil {
+				continue
+			}
+			ts := builderTemplates(fn)
+			if !c.Anchor("C34.R1", "templates of "+name, len(ts) >= 2) {
+				continue
+			}
+			seenT := map[string]bool{}
+			for _, t := range ts {
+				cfg := t.config()
+				if k := cfg + "|" + strings.Join(t.Parts, " "); seenT[k] {
+					continue
+				} else {
+					seenT[k] = true
+				}
+				if g.clusterImpliesSharded && cfg == "cluster" {
+					cfg = "sharded"
+				}
+				seg, has := t.braceSegment()
+				if cfg == "plain" {
+					continue
+				}
+				if strings.HasPrefix(cfg, "unknown") {
+					// the map broker's messageChannelID non-sharded branch is the non-cluster one
+					if g.clusterImpliesSharded && !has {
+						continue
+					}
+					c.CheckAt("C34.R1", name+": path condition classified", w.Pos(fn.Pos()), false, "cannot classify "+cfg)
+					continue
+				}
+				c.CheckAt("C34.R1", name+" ["+cfg+"]: key has a hash tag", w.Pos(fn.Pos()), has, "in cluster mode every key needs a {hash tag}: template "+strings.Join(t.Parts, " "))
+				if segs[cfg] == nil {
+					segs[cfg] = map[string]string{}
+				}
+				norm := seg
+				switch {
+				case strings.Contains(seg, "pubSubPartitionHashTag("):
+					norm = "⟨partition tag of the channel⟩"
+				case seg == "⟨arg:ch⟩":
+					norm = "⟨channel⟩"
+				}
+				// the first brace of the key is the template's own: nothing but the prefix precedes it
+				c.CheckAt("C34.R1", name+" ["+cfg+"]: only the configured prefix and literals precede the hash tag", w.Pos(fn.Pos()), t.prefixOnlyBeforeBrace(), strings.Join(t.Parts, " "))
+				segs[cfg][name] = norm
+			}
 		}
-		sort.Strings(desc)
-		c.CheckAt("C34.R1", "["+cfg+"] all keys and the PUB/SUB channel of one script call share the hash-tag operand", "broker_redis.go", len(distinct) == 1 && len(m) == len(builders),
-			"keys with different hash tags land in different slots: the script fails with CROSSSLOT ("+strings.Join(desc, " ; ")+")")
-		want := "⟨channel⟩"
-		if cfg == "sharded" {
-			want = "⟨partition tag of the channel⟩"
+		cfgs := []string{"cluster", "sharded"}
+		if g.clusterImpliesSharded {
+			cfgs = []string{"sharded"}
 		}
-		for b, s := range m {
-			c.CheckAt("C34.R1", b+" ["+cfg+"]: hash tag is "+want, "broker_redis.go", s == want, "got "+s)
+		if g.name == "presence manager" {
+			cfgs = []string{"cluster"}
+		}
+		for _, cfg := range cfgs {
+			m := segs[cfg]
+			distinct := map[string][]string{}
+			for b, sg := range m {
+				distinct[sg] = append(distinct[sg], b)
+			}
+			var desc []string
+			for sg, bs := range distinct {
+				sort.Strings(bs)
+				desc = append(desc, sg+" ← "+strings.Join(bs, ","))
+			}
+			sort.Strings(desc)
+			c.CheckAt("C34.R1", g.name+" ["+cfg+"]: all keys and the PUB/SUB channel of one script call share the hash-tag operand", "", len(distinct) == 1 && len(m) == len(g.builders),
+				"keys with different hash tags land in different slots: the script fails with CROSSSLOT ("+strings.Join(desc, " ; ")+")")
+			for sg := range distinct {
+				if sg == "⟨channel⟩" {
+					// R3: raw channel as hash tag
+					guarded := false
+					c.CheckAt("C34.R3", g.name+" ["+cfg+"]: the raw channel used as hash tag cannot start with '}'", "", guarded,
+						"Redis takes the text between the first '{' and the next '}' as the hash tag and hashes the whole key when that text is empty: for a channel that starts with '}' the tag is empty, the keys of one script call hash to different slots and the script fails with CROSSSLOT")
+				} else if sg == "⟨partition tag of the channel⟩" {
+					c.CheckAt("C34.R3", g.name+" ["+cfg+"]: the partition tag is never empty and holds no '{', '}' or '.'", "", partitionTagsClean(c), "strconv.Itoa of an index, or a precomputed tag")
+				} else {
+					c.CheckAt("C34.R3", g.name+" ["+cfg+"]: hash tag operand recognised", "", false, sg)
+				}
+			}
+		}
+		// R3: a prefix with '{' would move the first brace before the template's
+		ctor := w.Func("centrifuge", g.ctor)
+		if ctor != nil {
+			validated := false
+			for _, f := range WithClosures(ctor) {
+				EachInstr(f, func(in ssa.Instruction) {
+					if call, ok := in.(*ssa.Call); ok {
+						if f := call.Call.StaticCallee(); f != nil && f.Pkg != nil && f.Pkg.Pkg.Path() == "strings" && len(call.Call.Args) == 2 && strings.HasSuffix(D(call.Call.Args[0]), ".Prefix") {
+							if sv, isS := constStrOf(call.Call.Args[1]); isS && strings.Contains(sv, "{") {
+								validated = true
+							}
+							if bv, isB := constIntOf(call.Call.Args[1]); isB && bv == '{' {
+								validated = true
+							}
+						}
+					}
+				})
+			}
+			c.CheckAt("C34.R3", g.ctor+": a key prefix containing '{' is rejected", w.Pos(ctor.Pos()), validated,
+				"with a '{' in the prefix Redis takes the hash tag from the prefix and the literal infix (\".stream.\", \".client.\", …) instead of the template's {tag}: the keys of one script call hash to different slots")
 		}
 	}
 	// R2 extractChannel inverts messageChannelID
-	ec := c.Fn("C34.R2", "centrifuge", "(*RedisBroker).extractChannel")
-	if ec != nil {
+	for _, typ := range []string{"RedisBroker", "RedisMapBroker"} {
+		ec := w.Func("centrifuge", "(*"+typ+").extractChannel")
+		if typ == "RedisBroker" && !c.Anchor("C34.R2", "(*RedisBroker).extractChannel", ec != nil) {
+			continue
+		}
+		if ec == nil {
+			continue
+		}
 		okPrefix := len(CallsIn(ec, false, w.calleeIs("strings.TrimPrefix"))) > 0
 		okDot, okBrace := false, false
 		EachInstr(ec, func(in ssa.Instruction) {
 			if call, ok := in.(*ssa.Call); ok {
 				if f := call.Call.StaticCallee(); f != nil && f.Name() == "Index" {
-					if s, isS := constStrOf(call.Call.Args[1]); isS && s == "." {
+					if sv, isS := constStrOf(call.Call.Args[1]); isS && sv == "." {
 						okDot = true
 					}
 				}
@@ -414,35 +522,78 @@ func runC34(c *Ctx) {
 				}
 			}
 		})
-		c.CheckAt("C34.R2", "(*centrifuge.RedisBroker).extractChannel: strips the message prefix", w.Pos(ec.Pos()), okPrefix, "messageChannelID prepends messagePrefix")
-		c.CheckAt("C34.R2", "(*centrifuge.RedisBroker).extractChannel: sharded form {tag}.channel split at the first dot", w.Pos(ec.Pos()), okDot, "messageChannelID writes \"{tag}.\" before the channel")
-		c.CheckAt("C34.R2", "(*centrifuge.RedisBroker).extractChannel: cluster form {channel} unwrapped by its braces", w.Pos(ec.Pos()), okBrace, "messageChannelID wraps the channel in braces")
+		pre := "(*centrifuge." + typ + ").extractChannel: "
+		c.CheckAt("C34.R2", pre+"strips the message prefix", w.Pos(ec.Pos()), okPrefix, "messageChannelID prepends messagePrefix")
+		c.CheckAt("C34.R2", pre+"sharded form {tag}.channel is split at the first dot", w.Pos(ec.Pos()), okDot, "messageChannelID writes \"{tag}.\" before the channel; the tag holds no dot")
+		if typ == "RedisBroker" {
+			c.CheckAt("C34.R2", pre+"cluster form {channel} is unwrapped by its braces", w.Pos(ec.Pos()), okBrace, "messageChannelID wraps the channel in braces")
+		}
 	}
-	// R3 taint
-	if m := segs["cluster"]; len(m) > 0 {
-		raw := false
-		for _, s := range m {
-			if s == "⟨channel⟩" {
-				raw = true
+}
+
+// prefixOnlyBeforeBrace: every part before the first literal containing '{' is the configured prefix
+// (a field named Prefix / messagePrefix) or a literal.
+func (t keyTemplate) prefixOnlyBeforeBrace() bool {
+	for _, p := range t.Parts {
+		if strings.HasPrefix(p, "\"") {
+			if strings.Contains(p, "{") {
+				return true
+			}
+			continue
+		}
+		if strings.HasSuffix(p, "refix⟩") || strings.HasSuffix(p, "arg:infix⟩") {
+			continue
+		}
+		if strings.HasPrefix(p, "⟨φ(\"") && !strings.Contains(p, "{") && !strings.Contains(p, "arg:") && !strings.Contains(p, "(*") {
+			continue // a choice between brace-free literals
+		}
+		return false
+	}
+	return false
+}
+
+// partitionTagsClean: pubSubPartitionHashTag returns strconv.Itoa(idx) or an element of the
+// precomputed table, whose literals hold none of '{', '}', '.' and are non-empty.
+func partitionTagsClean(c *Ctx) bool {
+	w := c.W
+	for _, typ := range []string{"RedisBroker", "RedisMapBroker"} {
+		fn := w.Func("centrifuge", "(*"+typ+").pubSubPartitionHashTag")
+		if fn == nil {
+			return false
+		}
+		ok := true
+		EachInstr(fn, func(in ssa.Instruction) {
+			r, isR := in.(*ssa.Return)
+			if !isR {
+				return
+			}
+			for _, v := range retVals(r) {
+				d := D(v)
+				if !(strings.Contains(d, "Itoa(") || strings.Contains(d, "partitionTags[")) {
+					ok = false
+				}
+			}
+		})
+		if !ok {
+			return false
+		}
+	}
+	f := w.File("internal/redispartition/precomputed.go")
+	if f == nil {
+		return false
+	}
+	n, bad := 0, 0
+	ast.Inspect(f, func(nd ast.Node) bool {
+		if bl, ok := nd.(*ast.BasicLit); ok && bl.Kind == token.STRING {
+			sv, err := strconv.Unquote(bl.Value)
+			n++
+			if err != nil || sv == "" || strings.ContainsAny(sv, "{}.") {
+				bad++
 			}
 		}
-		// is an empty/“}”-leading channel rejected anywhere before it reaches the builders? (publish path)
-		guarded := false
-		pub := w.Func("centrifuge", "(*RedisBroker).publish")
-		if pub != nil {
-			EachInstr(pub, func(in ssa.Instruction) {
-				if call, ok := in.(*ssa.Call); ok {
-					if f := call.Call.StaticCallee(); f != nil && (f.Name() == "HasPrefix" || f.Name() == "IndexByte" || f.Name() == "ContainsAny" || f.Name() == "Contains") {
-						if s, isS := constStrOf(call.Call.Args[len(call.Call.Args)-1]); isS && strings.Contains(s, "}") {
-							guarded = true
-						}
-					}
-				}
-			})
-		}
-		c.CheckAt("C34.R3", "[cluster] the raw channel used as hash tag cannot start with '}'", "broker_redis.go", !raw || guarded,
-			"Redis takes the text between the first '{' and the next '}' as hash tag and hashes the whole key when it is empty: a channel that starts with '}' gives an empty tag, the keys of one script call hash to different slots and the script fails with CROSSSLOT")
-	}
+		return true
+	})
+	return n >= 16 && bad == 0
 }
 
 func runC38(c *Ctx) {
@@ -523,8 +674,103 @@ func runC38(c *Ctx) {
 					d := D(g.Cond)
 					return (strings.Contains(d, "checkPositionWithRetry(") || strings.Contains(d, "checkPositionOnce(") || strings.Contains(d, "validPosition") || strings.Contains(d, "#1")) && !g.Pol
 				})
-				c.Check("C38.R3", ci, "insufficient state broadcast exactly for an invalid position", okG || len(Guards(ci)) > 0, "a detected position loss ends the affected positioned subscriptions")
+				c.Check("C38.R3", ci, "insufficient state broadcast exactly for an invalid position", okG, "a detected position loss ends the affected positioned subscriptions; guards: "+strings.Join(GuardStrings(ci), " && "))
 			}
 		}
 	}
+}
+
+// derivesFromCall: v is computed (through phis, appends, slices, extracts, field reads and
+// conversions by module functions) from the result of a call matching pred.
+func derivesFromCall(v ssa.Value, pred CallPred, depth int, seen map[ssa.Value]bool) bool {
+	if v == nil || seen[v] || depth > 12 {
+		return false
+	}
+	seen[v] = true
+	switch x := v.(type) {
+	case *ssa.Call:
+		if pred(x) {
+			return true
+		}
+		for _, a := range x.Call.Args {
+			if derivesFromCall(a, pred, depth+1, seen) {
+				return true
+			}
+		}
+	case *ssa.Phi:
+		for _, e := range x.Edges {
+			if derivesFromCall(e, pred, depth+1, seen) {
+				return true
+			}
+		}
+	case *ssa.Extract:
+		return derivesFromCall(x.Tuple, pred, depth+1, seen)
+	case *ssa.Field:
+		return derivesFromCall(x.X, pred, depth+1, seen)
+	case *ssa.FieldAddr:
+		return derivesFromCall(x.X, pred, depth+1, seen)
+	case *ssa.Slice:
+		return derivesFromCall(x.X, pred, depth+1, seen)
+	case *ssa.Index:
+		return derivesFromCall(x.X, pred, depth+1, seen)
+	case *ssa.IndexAddr:
+		return derivesFromCall(x.X, pred, depth+1, seen)
+	case *ssa.Next:
+		return derivesFromCall(x.Iter, pred, depth+1, seen)
+	case *ssa.Range:
+		return derivesFromCall(x.X, pred, depth+1, seen)
+	case *ssa.ChangeType:
+		return derivesFromCall(x.X, pred, depth+1, seen)
+	case *ssa.Alloc:
+		for _, r := range *x.Referrers() {
+			switch u := r.(type) {
+			case *ssa.Store:
+				if u.Addr == x && derivesFromCall(u.Val, pred, depth+1, seen) {
+					return true
+				}
+			case *ssa.IndexAddr, *ssa.FieldAddr:
+				for _, rr := range *u.(ssa.Value).Referrers() {
+					if st, ok := rr.(*ssa.Store); ok && st.Addr == u.(ssa.Value) && derivesFromCall(st.Val, pred, depth+1, seen) {
+						return true
+					}
+				}
+			}
+		}
+	case *ssa.UnOp:
+		if x.Op == token.MUL {
+			if sv := singleStore(x.X); sv != nil {
+				return derivesFromCall(sv, pred, depth+1, seen)
+			}
+			if al, ok := x.X.(*ssa.Alloc); ok {
+				for _, r := range *al.Referrers() {
+					if st, ok := r.(*ssa.Store); ok && st.Addr == al && derivesFromCall(st.Val, pred, depth+1, seen) {
+						return true
+					}
+				}
+			}
+		}
+		return derivesFromCall(x.X, pred, depth+1, seen)
+	}
+	return false
+}
+
+// concatParts flattens a string concatenation into template parts.
+func concatParts(v ssa.Value, depth int) []string {
+	if depth > 16 {
+		return []string{"⟨" + D(v) + "⟩"}
+	}
+	switch x := v.(type) {
+	case *ssa.BinOp:
+		if x.Op == token.ADD {
+			return append(concatParts(x.X, depth+1), concatParts(x.Y, depth+1)...)
+		}
+	case *ssa.ChangeType:
+		return concatParts(x.X, depth+1)
+	case *ssa.Convert:
+		return concatParts(x.X, depth+1)
+	}
+	if sv, ok := constStrOf(v); ok {
+		return []string{fmt.Sprintf("%q", sv)}
+	}
+	return []string{"⟨" + D(v) + "⟩"}
 }
